@@ -59,7 +59,8 @@ func (x *Bool) CompareAndSwap(o, n bool) bool {
 		wr(&x.h, b2u(n))
 		return true
 	}
-	rd(&x.h, b2u(x.v))
+	cur := x.v
+	rd(&x.h, b2u(cur))
 	return false
 }
 
@@ -83,9 +84,10 @@ func (x *numv[T]) Swap(v T) T {
 }
 func (x *numv[T]) Add(d T) T {
 	pt(&x.h, "atomic.add")
-	x.v += d
-	wr(&x.h, uint64(x.v))
-	return x.v
+	nv := x.v + d
+	x.v = nv
+	wr(&x.h, uint64(nv)) // nothing touches x.v after the release annotation inside wr
+	return nv
 }
 func (x *numv[T]) CompareAndSwap(o, n T) bool {
 	pt(&x.h, "atomic.cas")
@@ -94,7 +96,8 @@ func (x *numv[T]) CompareAndSwap(o, n T) bool {
 		wr(&x.h, uint64(n))
 		return true
 	}
-	rd(&x.h, uint64(x.v))
+	cur := x.v
+	rd(&x.h, uint64(cur))
 	return false
 }
 
